@@ -3,8 +3,10 @@ package main
 import (
 	"fmt"
 	"go/ast"
+	"go/constant"
 	"go/token"
 	"go/types"
+	"sort"
 	"strings"
 
 	"golang.org/x/tools/go/ssa"
@@ -287,6 +289,9 @@ func ruleStructDescriptor(c *Ctx) {
 	if ssaFacts["len"] {
 		lenOK = true
 	}
+	if ssaFacts["typename"] {
+		nameOK = true
+	}
 	c.Oblige("T.desc-struct", typeOK && nameOK && lenOK, fn.Decl.Pos(), fn.Name(), "Type=FieldTypeStruct, TypeName=rtype.Name(), len(Elements)=len(fields)",
 		fmt.Sprintf("struct descriptor header: type %v, type name %v, one element per encoded field %v", typeOK, nameOK, lenOK), nil)
 	c.Floor("T.desc-struct", 5)
@@ -454,31 +459,97 @@ func ruleMapDescriptor(c *Ctx) {
 		}
 		return true
 	})
-	dinfo := md.Pkg.TypesInfo
+	// MapCodec.Descriptor on SSA: which codec each part comes from, the indexes
+	// it is given, the order of the two in the entry and the logical types set
 	descIdx := map[string]int64{}
 	descSrc := map[string]string{}
-	ast.Inspect(md.Decl.Body, func(n ast.Node) bool {
-		as, ok := n.(*ast.AssignStmt)
-		if !ok {
-			return true
-		}
-		for i, lhs := range as.Lhs {
-			if i >= len(as.Rhs) {
-				break
-			}
-			if sel, ok := lhs.(*ast.SelectorExpr); ok && sel.Sel.Name == "Index" {
-				if id, ok := sel.X.(*ast.Ident); ok {
-					if v, ok := constInt(dinfo, as.Rhs[i]); ok {
-						descIdx[id.Name] = v
+	var order []string
+	logical := map[string]bool{}
+	if sf := p.ssaFunc("plenccodec.MapCodec.Descriptor"); sf != nil && len(sf.Params) > 0 {
+		recv := ssa.Value(sf.Params[0])
+		role := map[ssa.Value]string{} // local holding the key / value descriptor
+		for _, b := range sf.Blocks {
+			for _, in := range b.Instrs {
+				st, ok := in.(*ssa.Store)
+				if !ok {
+					continue
+				}
+				call, ok := st.Val.(*ssa.Call)
+				if !ok || !call.Common().IsInvoke() || call.Common().Method.Name() != "Descriptor" {
+					continue
+				}
+				if ld, ok := call.Common().Value.(*ssa.UnOp); ok && ld.Op == token.MUL {
+					if fa, ok := ld.X.(*ssa.FieldAddr); ok && fa.X == recv {
+						switch fieldName(fa) {
+						case "keyCodec":
+							role[st.Addr] = "kDesc"
+							descSrc["kDesc"] = "keyCodec.Descriptor()"
+						case "valueCodec":
+							role[st.Addr] = "vDesc"
+							descSrc["vDesc"] = "valueCodec.Descriptor()"
+						}
 					}
 				}
 			}
-			if id, ok := lhs.(*ast.Ident); ok && (id.Name == "kDesc" || id.Name == "vDesc") {
-				descSrc[id.Name] = p.str(as.Rhs[i])
+		}
+		lconst := map[int64]string{}
+		for _, nm := range []string{"LogicalTypeMap", "LogicalTypeMapEntry"} {
+			if k, ok := sf.Pkg.Pkg.Scope().Lookup(nm).(*types.Const); ok {
+				if v, ok := constant.Int64Val(constant.ToInt(k.Val())); ok {
+					lconst[v] = nm
+				}
 			}
 		}
-		return true
-	})
+		type slot struct {
+			idx  int64
+			name string
+		}
+		var slots []slot
+		for _, b := range sf.Blocks {
+			for _, in := range b.Instrs {
+				st, ok := in.(*ssa.Store)
+				if !ok {
+					continue
+				}
+				switch a := st.Addr.(type) {
+				case *ssa.FieldAddr:
+					k, isK := st.Val.(*ssa.Const)
+					if !isK || k.Value == nil {
+						continue
+					}
+					v, okv := constant.Int64Val(constant.ToInt(k.Value))
+					if !okv {
+						continue
+					}
+					switch fieldName(a) {
+					case "Index":
+						if r := role[a.X]; r != "" {
+							descIdx[r] = v
+						}
+					case "LogicalType":
+						if nm := lconst[v]; nm != "" {
+							logical[nm] = true
+						}
+					}
+				case *ssa.IndexAddr:
+					// entry.Elements = []Descriptor{key, value}: element i is the load of a role local
+					if ld, ok := st.Val.(*ssa.UnOp); ok && ld.Op == token.MUL {
+						if r := role[ld.X]; r != "" {
+							if k, ok := a.Index.(*ssa.Const); ok && k.Value != nil {
+								if v, ok := constant.Int64Val(constant.ToInt(k.Value)); ok {
+									slots = append(slots, slot{v, r})
+								}
+							}
+						}
+					}
+				}
+			}
+		}
+		sort.Slice(slots, func(i, j int) bool { return slots[i].idx < slots[j].idx })
+		for _, sl := range slots {
+			order = append(order, sl.name)
+		}
+	}
 	ok := tagIdx["keyTag"] == 1 && tagIdx["valueTag"] == 2 && descIdx["kDesc"] == tagIdx["keyTag"] && descIdx["vDesc"] == tagIdx["valueTag"]
 	c.Oblige("T.desc-map", ok, md.Decl.Pos(), md.Name(), "key index 1 / value index 2 in both the wire tags and the descriptor",
 		fmt.Sprintf("map entries are key=field 1, value=field 2; wire tags use %v, descriptor uses %v", tagIdx, descIdx), nil)
@@ -486,24 +557,7 @@ func ruleMapDescriptor(c *Ctx) {
 		strings.Contains(descSrc["kDesc"], "keyCodec.Descriptor") && strings.Contains(descSrc["vDesc"], "valueCodec.Descriptor")
 	c.Oblige("T.desc-map", ok2, md.Decl.Pos(), md.Name(), "key parts from the key codec, value parts from the value codec",
 		fmt.Sprintf("tags: %v descriptors: %v", tagWT, descSrc), nil)
-	// structure: slice(map) of struct(map entry) with elements [kDesc, vDesc]
-	var order []string
-	logical := map[string]bool{}
-	ast.Inspect(md.Decl.Body, func(n ast.Node) bool {
-		switch x := n.(type) {
-		case *ast.KeyValueExpr:
-			if k, ok := x.Key.(*ast.Ident); ok && k.Name == "LogicalType" {
-				logical[constName(dinfo, x.Value)] = true
-			}
-		case *ast.CompositeLit:
-			for _, e := range x.Elts {
-				if id, ok := e.(*ast.Ident); ok && (id.Name == "kDesc" || id.Name == "vDesc") {
-					order = append(order, id.Name)
-				}
-			}
-		}
-		return true
-	})
+	// structure: slice(map) of struct(map entry) with elements [key, value]
 	c.Oblige("T.desc-map", strings.Join(order, ",") == "kDesc,vDesc" && logical["LogicalTypeMap"] && logical["LogicalTypeMapEntry"], md.Decl.Pos(), md.Name(),
 		"Slice(LogicalTypeMap) of Struct(LogicalTypeMapEntry){key, value}", fmt.Sprintf("elements %v, logical types %v", order, logical), nil)
 	c.Floor("T.desc-map", 3)
